@@ -104,3 +104,8 @@ LEVEL_TEXT.update({
     "C18": "For every nearness relation and every frame dictionary: edges = exactly the near pairs in consecutive frames (Lean theorem about the loop as written); brute-force reference on random arrays / point lists with gaps and boundary distances.",
 })
 LEVEL_NOTE.update({p: "; ".join(TRUSTED_BASE_COMMON[2:] + TRUSTED_BASE.get(p, []))[:900] for p in FAMILY})
+
+REQUIRED_THEOREMS["C06"] = ["C06_fresh_tid", "C06_fresh_lin", "C06_fresh_nodes", "C06_has_track", "C06_neighbors",
+                            "C06_book_pAddNode", "C06_book_pDelNode", "C06_book_pUpdTid", "C06_book_walk_tracks",
+                            "C06_book_prims_other", "C06_book_uDeleteEdge", "C06_book_uUpdateAttrs",
+                            "C06_book_uAddEdge_partial", "C06_counterexample_book_needs_lineage_rule"]
